@@ -2,6 +2,7 @@
 import importlib
 import itertools
 
+from . import state
 from .core import pmap, chunks, shuffled
 
 
@@ -22,6 +23,7 @@ def _work(args):
     res = []
     for c in cases:
         try:
+            state.restore()     # every case starts pristine
             vs, info = fn(c)
             res.append((c, vs, info, None))
         except BaseException as e:
